@@ -414,7 +414,12 @@ pub fn c09(ctx: &mut Ctx) -> R {
             // ================================================================ SendBody
             FlowSt::SendBody(mut f) => {
                 let ready = lib("Flow<SendBody>::can_proceed", || f.can_proceed());
-                let model_ready = if chunked_req { terminator_sent } else { body_sent == body_total && (body_total > 0 || end_signalled) };
+                // Content-Length: 0 before any end signal: all 0 bytes are accounted for, so the body
+                // may be reported finished already or only after the signal - the statements of C04 /
+                // C09 allow both; the model follows the library there and only demands that the
+                // query and advancing agree
+                let undecided = !chunked_req && body_total == 0 && !end_signalled;
+                let model_ready = if undecided { ready } else if chunked_req { terminator_sent } else { body_sent == body_total && (body_total > 0 || end_signalled) };
                 if ready != model_ready {
                     fail!("C09.readiness", "SendBody", "SendBody.can_proceed() = {} but the body is {} ({} body, {} of {} sent, terminator {})", ready, if model_ready { "complete" } else { "incomplete" }, if chunked_req { "chunked" } else { "sized" }, body_sent, if chunked_req { body_planned } else { body_total }, terminator_sent);
                 }
